@@ -239,6 +239,7 @@ type stressCase struct {
 	Batch   *spec.BatchSpec `json:"batch"`
 	Other   *spec.BatchSpec `json:"other"`
 	Mmap    bool            `json:"mmap"`
+	DVChunk uint32          `json:"dvChunk"` // doc-value chunk size (0 = default 1024)
 	Scripts [][]readerOp    `json:"scripts"`
 }
 
@@ -249,6 +250,7 @@ func genStressCase(t *rapid.T) stressCase {
 	o.MinFields = 2
 	s := gen.GenSchema(t, o)
 	c := stressCase{Mmap: rapid.Bool().Draw(t, "mmap")}
+	c.DVChunk = rapid.SampledFrom([]uint32{2, 1024, 1, 3}).Draw(t, "dvChunk")
 	c.Batch = s.GenBatch(t, "b", gen.BatchOpts{MaxDocs: 10, MinDocs: 2, SynPct: 30})
 	c.Other = s.GenBatch(t, "o", gen.BatchOpts{MaxDocs: 4, MinDocs: 1, SynPct: 30})
 	g := rapid.SampledFrom([]int{4, 2, 8, 3}).Draw(t, "goroutines")
@@ -278,7 +280,7 @@ func sortedIndexFields(o *spec.Obs) []string {
 }
 
 // runReaderOp executes one reader call and compares it with the model.
-func runReaderOp(prop string, seg, other segment.Segment, want, wantOther *spec.Obs, op readerOp, g int) *Violation {
+func runReaderOp(prop string, seg, other segment.Segment, want, wantOther *spec.Obs, op readerOp, g int, mergeWant func(dropDoc int) *spec.Obs) *Violation {
 	fields := sortedIndexFields(want)
 	nd := int(want.Count)
 	pickField := func() string { return fields[op.A%len(fields)] }
@@ -447,8 +449,10 @@ func runReaderOp(prop string, seg, other segment.Segment, want, wantOther *spec.
 			return violation(prop, "stress/merge-error", "goroutine %d: merge with the shared segment as input failed: %v", g, err)
 		}
 		exp := want.Count
+		dropDoc := -1
 		if drops[0] != nil {
 			exp--
+			dropDoc = op.A % nd
 		}
 		surv := uint64(0)
 		for _, x := range nums[0] {
@@ -459,6 +463,14 @@ func runReaderOp(prop string, seg, other segment.Segment, want, wantOther *spec.
 		if surv != exp {
 			return violation(prop, "stress/merge-mismatch", "goroutine %d: merge kept %d documents of the shared segment, model %d", g, surv, exp)
 		}
+		// the merged output must be complete and correct although other
+		// goroutines read (and merge) the same input at the same time
+		mw := mergeWant(dropDoc)
+		if vv := reopenAndCompare(prop, path, mw, spec.DiffOpts{DVFieldsSub: true, SkipFields: true}); vv != nil {
+			vv.Signature = "stress/merge-output-" + vv.Signature
+			vv.Message = fmt.Sprintf("goroutine %d: merge with the shared segment as input: %s", g, vv.Message)
+			return vv
+		}
 	}
 	return nil
 }
@@ -466,7 +478,20 @@ func runReaderOp(prop string, seg, other segment.Segment, want, wantOther *spec.
 func runStressCase(c stressCase) *Violation {
 	const prop = "C11"
 	zap.VerifResetPools()
+	if c.DVChunk != 0 {
+		// set before any goroutine starts, restored after all have finished
+		old := zap.LegacyChunkMode
+		zap.LegacyChunkMode = c.DVChunk
+		defer func() { zap.LegacyChunkMode = old }()
+	}
 	want, wantOther := spec.Expect(c.Batch), spec.Expect(c.Other)
+	mergeWant := func(dropDoc int) *spec.Obs {
+		p := &spec.MergePlan{Children: []spec.MergePlan{{Leaf: c.Batch}, {Leaf: c.Other}}, Drops: []spec.DropSpec{{Nil: true}, {Nil: true}}}
+		if dropDoc >= 0 {
+			p.Drops[0] = spec.DropSpec{Docs: []uint32{uint32(dropDoc)}}
+		}
+		return spec.ExpectResolved(spec.Resolve(p))
+	}
 	seg, closeFn, v := openVariant(prop, c.Batch, 0, c.Mmap)
 	if v != nil {
 		return v
@@ -487,7 +512,7 @@ func runStressCase(c stressCase) *Violation {
 			<-start
 			err := drive.Safe(func() error {
 				for _, op := range c.Scripts[g] {
-					if vv := runReaderOp(prop, seg, other, want, wantOther, op, g); vv != nil {
+					if vv := runReaderOp(prop, seg, other, want, wantOther, op, g, mergeWant); vv != nil {
 						res[g] = vv
 						return nil
 					}
